@@ -36,7 +36,15 @@ def run(path) -> int:
     print('model         :', r['model'])
     print('disagreement  :', r['dis'])
     print('predicate failures:', r['fails'])
-    bad = r['dis'] is not None or bool(r['fails'])
+    from . import findings
+    left = []
+    for fl in r['fails']:
+        kf = findings.attribute(prop, r, fl)
+        if kf is not None:
+            print(f'KNOWN-FINDING: property={prop} {kf}')
+        else:
+            left.append(fl)
+    bad = r['dis'] is not None or bool(left)
     if bad:
         print(f'VIOLATION property={prop} replay={path}')
     return 1 if bad else 0
